@@ -3,6 +3,9 @@ import ObiVerif.Lemmas.Apat
 import ObiVerif.Lemmas.ApatLocate
 import ObiVerif.Lemmas.ApatIndel
 import ObiVerif.Lemmas.ApatComp
+import ObiVerif.Lemmas.ApatIndelOblig
+import ObiVerif.Lemmas.ApatBest
+import ObiVerif.Lemmas.ApatGrammar
 /-!
 # C10 — primer pattern matching reports exactly the matching positions and error counts (property theorems)
 
@@ -34,15 +37,34 @@ Proved here, for every pattern of 1..63 positions, every budget, every sequence 
   (non-empty list of `['!'] (Letter | '[' Letter+ ']') ['#']`), the string-level `complementPattern` succeeds and yields the mirrored
   code list, so that `match_revcomp` holds without its `MirrorList` hypothesis (`Lemmas/ApatComp.lean`).
 
+Second deepening round, proved:
+* `indel_oblig_iff` (+ `indel_oblig_strict`, `oblig_never_error`, `strict_is_alignment`): `ManberIndel` for EVERY pattern of
+  1..63 positions, obligatory (`#`) positions included: the hit `(pos-m+1, k)` is pushed iff `k ≤ e` is the least cost of an
+  alignment `ReachO` of the pattern with a suffix of the window read up to `pos`; `ReachO` (`Lemmas/ApatIndelOblig.lean`) =
+  edit alignments in which an obligatory position is never substituted nor deleted and no symbol is inserted right after it,
+  plus the start exception of the C init loop (any pattern prefix counts as deleted in front of the first symbol of the window).
+  An end position at least `m + k - 1` symbols away from the window start is reported through a strict alignment only: there a
+  `#` position never counts as an error (`oblig_never_error`) and the count is the cost of an ordinary alignment;
+* `bestOf_leftmost_min`: the selection loop of `BestMatch` returns the leftmost raw hit of minimal error level;
+  `raw_hits_within_budget`, `raw_hits_sorted`;
+* `filterBestMatch_cover`, `filterBestMatch_chain`: `FilterBestMatch` (as repaired: first hit beyond position 10000) keeps for
+  every raw hit a hit with at most as many errors, and two kept hits never overlap;
+* `compile_grammar_iff`, `position_semantics`: `MakeApatPattern` accepts exactly the documented grammar (strings without the exotic
+  adjacencies `##`, `!#`, `!!`), and a compiled position accepts exactly the IUPAC class of its letters (negated for `!`),
+  obligatory iff `#`;
+* `allMatches_spec`, `bestMatch_spec`: the composition of the automaton and of `LocatePattern` in `AllMatches` / `BestMatch` on a
+  linear sequence: every returned triple is within the budget and is a raw hit passed unchanged, or (indel mode) a span inside
+  the sequence whose reported error count IS the edit distance between the pattern string and that span.
+
 NOT proved / excluded (tied by the correspondence check and the harness oracle only, see lib/cfg/C10.py):
-* obligatory positions combined with indels (hypothesis `hno` of `indel_iff`): the C code masks the error transitions of an
-  obligatory column but not the initial state, so that `A#C` with one error is found in `c` and not in `tc` (test below; the real
-  code does the same): no uniform specification to prove;
+* completeness of `AllMatches` in indel mode (a substring within the budget exists ⇒ something is returned): the re-alignment
+  fragment `[start - 2k, start + m + 2k)` is cut at the sequence ends and `LocatePattern` compares letters by `_samenuc` (IUPAC
+  classes intersect) while the automaton uses the compiled classes: equal for `acgt` sequences only; tied by the oracle `all.iff`;
 * strings accepted by `CheckPattern` outside the documented grammar: a `#` following a `#` is a position of its own and
   `complementPattern` does NOT mirror such patterns (`complement_outside_grammar`: `A##A` ↦ `T##T`, `A##` ↦ rejected);
   other exotic accepted strings (`!!A`, `!#`) are not covered by the theorem (all strings of length ≤ 7 over `A C [ ] ! #`
   without `##` that compile were evaluated in the model: mirrored);
-* circular sequences, `AllMatches` / `BestMatch` end to end with indels (the composition of `indel_iff` and `locate_spec`).
+* circular sequences in `AllMatches` / `BestMatch` (known finding D35); circular `FindAllIndex` is `Lemmas/ApatCircular.lean`.
 -/
 namespace ObiVerif.Props.C10
 open ObiVerif ObiVerif.Apat
@@ -263,6 +285,66 @@ example : (compile ([65, 67, 71, 84, 65] : Bytes) 1 true).toOption.map
       editDist accepts P.codes [2, 6, 19, 0], editDist accepts P.codes [0, 2, 2, 6, 19, 0]))
     = some (true, 5, [(-1, 1), (7, 1)], 1, 1) := by decide
 
+/-! ## indels with obligatory positions -/
+
+/-- **`ManberIndel`, obligatory positions included** (`indel_oblig_iff`).  For every pattern of 1..63 positions, any budget,
+text and window: the hit `(i, k)` is pushed iff `i = pos - m + 1` for an end position `pos` of the scanned window, `k ≤ maxerr`,
+and `k` is the least cost of an alignment `ReachO` (lists reversed) of the whole pattern with a suffix of the text
+`data[begin .. pos]` read since the start of the window.  `ReachO`: identity; substitution, insertion after, deletion of a
+position that is NOT obligatory; and the start rule of the init loop. -/
+theorem indel_oblig_iff (P : Pattern) (data : List Nat) (begin length : Nat)
+    (hm1 : 1 ≤ P.patlen) (hm : P.patlen ≤ 63) (hd : ∀ c ∈ data, c < 26) (i : Int) (k : Nat) :
+    (i, k) ∈ manberIndel P data begin length ↔
+      ∃ pos : Nat, begin ≤ pos ∧ pos < min (begin + length) data.length ∧ i = (pos : Int) - P.patlen + 1 ∧ k ≤ P.maxerr ∧
+        IsLeast (ReachO P.codes.reverse (((data.drop begin).take (pos + 1 - begin)).reverse)) k :=
+  manberIndel_oblig_mem P data begin length hm1 hm hd i k
+
+/-- **away from the window start every reported alignment is strict**: a hit `(pos - m + 1, k)` whose end position is at
+least `m + k - 1` symbols after `begin` comes from an alignment `ReachS` — the rules of `ReachO` without the start exception. -/
+theorem indel_oblig_strict (P : Pattern) (data : List Nat) (begin length : Nat)
+    (hm1 : 1 ≤ P.patlen) (hm : P.patlen ≤ 63) (hd : ∀ c ∈ data, c < 26) (pos k : Nat)
+    (h : ((pos : Int) - P.patlen + 1, k) ∈ manberIndel P data begin length) (hfar : begin + P.patlen + k ≤ pos + 2) :
+    ReachS P.codes.reverse (((data.drop begin).take (pos + 1 - begin)).reverse) k := by
+  obtain ⟨pos', h1, h2, h3, _, h5, _⟩ := (indel_oblig_iff P data begin length hm1 hm hd _ k).1 h
+  have : pos' = pos := by omega
+  subst this
+  apply reachO_strict_of_long h5
+  simp only [List.length_reverse, List.length_take, List.length_drop, Pattern.patlen] at *
+  omega
+
+/-- **a `#` position never counts as an error** in a strict alignment: if the last position of the aligned pattern prefix
+is obligatory, the alignment ends with a text symbol that this position accepts, at no cost (inversion of `ReachS`; by
+induction every obligatory position of the pattern is matched by a symbol of its class) -/
+theorem oblig_never_error (a : Nat) (rq s : List Nat) (k : Nat) (h : ReachS (a :: rq) s k) (ho : oblig a = true) :
+    ∃ c s', s = c :: s' ∧ accepts a c = true ∧ ReachS rq s' k := by
+  cases h with
+  | id ha h' => exact ⟨_, _, rfl, ha, h'⟩
+  | sub ho' _ _ => rw [ho] at ho'; cases ho'
+  | ins ho' _ => rw [ho] at ho'; cases ho'
+  | del ho' _ => rw [ho] at ho'; cases ho'
+
+/-- a strict alignment is an ordinary alignment (`Ali`, the relation `editDist` minimises) of the pattern prefix with a
+suffix of the text read: its cost is at least the plain edit distance to the best substring ending there -/
+theorem strict_is_alignment (rq s : List Nat) (k : Nat) (h : ReachS rq s k) : Reach accepts false rq s k :=
+  reachS_reach h
+
+/-- tests / non-vacuity (evaluation of the model; the real code gives the same lists): pattern `A#C`, budget 1, indels.
+`c`: reported through the start exception (the obligatory `A` deleted in front of the window); `tc`: not reported;
+`gac`: end positions 1 (`a`, `C` deleted) and 2 (`ac`, cost 0); `agc`: end positions 0 and 1 (`a`; `ag`, `C` substituted) but
+NOT 2 — `a g c` would need an insertion right after the obligatory `A`;
+pattern `AC#` on `agc`: hit with one error at end position 2 (an insertion BEFORE an obligatory position is allowed). -/
+example : (compile ([65, 35, 67] : Bytes) 1 true).toOption.map (fun P => (manberIndel P [2] 0 1, manberIndel P [19, 2] 0 2))
+    = some ([(-1, 1)], []) := by decide
+example : (compile ([65, 35, 67] : Bytes) 1 true).toOption.map (fun P => (manberIndel P [6, 0, 2] 0 3, manberIndel P [0, 6, 2] 0 3))
+    = some ([(0, 1), (1, 0)], [(-1, 1), (0, 1)]) := by decide
+example : (compile ([65, 67, 35] : Bytes) 1 true).toOption.map (fun P => manberIndel P [0, 6, 2] 0 3)
+    = some [(1, 1)] := by decide
+/-- the two alignments behind the first and the last of these tests, as `ReachO` derivations -/
+example : ReachO [4, 67108865] [2] 1 ∧ ReachO [67108868, 1] [2, 6, 0] 1 := by
+  refine ⟨?_, ?_⟩
+  · exact ReachO.id (by decide) (ReachO.start [67108865])
+  · exact ReachO.id (by decide) (ReachO.ins (by decide) (ReachO.id (by decide) (ReachO.nil [])))
+
 /-! ## strand symmetry -/
 
 instance (a a' : Nat) : Decidable (MirrorCode a a') := by unfold MirrorCode; exact inferInstance
@@ -320,6 +402,47 @@ the accepted-letter set | `OBLIBIT`; `Tok.comp` complements the letters). -/
 theorem compile_grammar (ts : List Tok) (hts : ∀ t ∈ ts, t.WF) (hne : ts ≠ []) (e : Nat) (b : Bool) :
     compile (patStr ts) e b = .ok ⟨patStr ts, ts.map Tok.code, e, b⟩ :=
   compile_pat ts hts hne e b
+
+/-- **`MakeApatPattern` accepts exactly the documented grammar** (`compile_grammar_iff`), for pattern strings without the three
+exotic adjacencies `##`, `!#`, `!!` (`plain`, a decidable condition on the upper-cased C string): the pattern compiles iff its
+upper-cased C string is the string of a non-empty list of well-formed positions `['!'] (Letter | '[' Letter+ ']') ['#']`.
+(Without `plain` the direction ⇒ is false: `CheckPattern` accepts `A##`, `!#`, `!!A`; see `complement_outside_grammar`.) -/
+theorem compile_grammar_iff (pat : Bytes) (e : Nat) (b : Bool) (hpl : plain (upperSeq (cString pat)) = true) :
+    (∃ P, compile pat e b = .ok P) ↔
+      ∃ ts : List Tok, (∀ t ∈ ts, t.WF) ∧ ts ≠ [] ∧ upperSeq (cString pat) = patStr ts := by
+  constructor
+  · rintro ⟨P, h⟩
+    unfold compile at h
+    simp only at h
+    split at h
+    · cases h
+    · rename_i hck
+      split at h
+      · cases h
+      · rename_i codes henc
+        apply checkPattern_grammar _ _ (by simpa using hck) hpl
+        intro h0
+        rw [h0] at henc
+        simp [encodePattern, tokens] at henc
+  · rintro ⟨ts, hts, hne, heq⟩
+    refine ⟨⟨patStr ts, ts.map Tok.code, e, b⟩, ?_⟩
+    unfold compile
+    simp only [heq, check_pat ts hts, encode_pat ts hts hne, Bool.not_true, Bool.false_eq_true, if_false]
+
+/-- non-vacuity: `a[ct]!g#N` (lower case, NUL-terminated) is plain and compiles to 4 positions; `A##` is not plain -/
+example : plain (upperSeq (cString ([97, 91, 99, 116, 93, 33, 103, 35, 78, 0, 65] : Bytes))) = true ∧
+    ((compile ([97, 91, 99, 116, 93, 33, 103, 35, 78, 0, 65] : Bytes) 1 false).toOption.map Pattern.patlen) = some 4 ∧
+    plain ([65, 35, 35] : Bytes) = false := by decide
+
+/-- **what a compiled position accepts** (`position_semantics`): position `t` of a pattern of the grammar accepts the sequence
+symbol `c` (a letter, `c < 26` = `c - 'a'`) iff `c` belongs to the IUPAC class (`sDnaCode`, = `iupacSpec` by `dnaCode_is_iupac`)
+of one of the letters of the position — negated for `!`; and the position is obligatory iff it carries `#`.  With
+`compile_grammar` (`codes = ts.map Tok.code`) this is the meaning of every compiled code word. -/
+theorem position_semantics (t : Tok) (ht : t.WF) (c : Nat) (hc : c < 26) :
+    accepts t.code c = ((t.letters.any fun l => (Gen.apatDnaCode.getD (l.toNat - 65) 0).testBit c) ^^ t.neg) ∧
+    oblig t.code = t.oblig := by
+  refine ⟨?_, oblig_code t⟩
+  rw [accepts_code t c hc, valLetters_bit t.letters c ht.1]
 
 /-- **`complementPattern` yields the mirrored code list**: for every pattern string of the grammar, the compiled
 pattern `P` is reverse-complemented (`complementPattern`: complement every character, reverse the string, re-attach the
@@ -406,6 +529,73 @@ theorem allMatches_total (P : Pattern) (seq : Bytes) (begin length : Int)
 example : (compile ([65, 67, 71, 84, 65] : Bytes) 1 true).toOption.map
     (fun P => (decide (1 ≤ P.patlen ∧ P.patlen ≤ P.cpat.length), allMatches P ([97, 99, 103, 97] : Bytes) false 0 (-1)))
     = some (true, .ok [(0, 4, 1)]) := by decide
+
+/-- every raw hit of `FindAllIndex` carries an error level within the budget, and `end = start + patlen` -/
+theorem raw_hits_within_budget (P : Pattern) (seq : Bytes) (circular : Bool) (begin length : Int) :
+    ∀ h ∈ findAllIndex P seq circular begin length, 0 ≤ h.2.2 ∧ h.2.2 ≤ (P.maxerr : Int) ∧ h.2.1 = h.1 + P.patlen :=
+  findAllIndex_err_le P seq circular begin length
+
+/-- the raw hits are sorted by strictly increasing start position -/
+theorem raw_hits_sorted (P : Pattern) (seq : Bytes) (circular : Bool) (begin length : Int) :
+    (findAllIndex P seq circular begin length).Pairwise (fun a b => a.1 < b.1) :=
+  findAllIndex_sorted P seq circular begin length
+
+/-- **the selection loop of `BestMatch`** returns the LEFTMOST hit of minimal error count: the list splits as
+`l1 ++ best :: l2` with strictly more errors everywhere in `l1` and at least as many in `l2` -/
+theorem bestOf_leftmost_min (P : Pattern) (seq : Bytes) (circular : Bool) (begin length : Int) (hmax : P.maxerr < 10000)
+    (hne : findAllIndex P seq circular begin length ≠ []) :
+    let res := findAllIndex P seq circular begin length
+    ∃ l1 l2, res = l1 ++ bestOf res :: l2 ∧ (∀ m ∈ l1, (bestOf res).2.2 < m.2.2) ∧ ∀ m ∈ l2, (bestOf res).2.2 ≤ m.2.2 := by
+  intro res
+  apply bestOf_spec res _ hne
+  intro m hm
+  have := (findAllIndex_err_le P seq circular begin length m hm).2.1
+  omega
+
+theorem raw_hits_ok (P : Pattern) (seq : Bytes) (circular : Bool) (begin length : Int) (hmax : P.maxerr < 10000) :
+    ∀ x ∈ findAllIndex P seq circular begin length, HitOk x := by
+  intro x hx
+  obtain ⟨h1, h2, h3⟩ := findAllIndex_err_le P seq circular begin length x hx
+  exact ⟨h1, by omega, by omega⟩
+
+/-- **`FilterBestMatch` represents every raw hit**: for each hit of `FindAllIndex` a hit with at most as many errors is kept
+(so the minimal error count survives, and something is kept whenever something was found).  False of the unrepaired code
+when the first hit starts at position `10000 + err` or later (everything was dropped: witness in the harness corpus). -/
+theorem filterBestMatch_cover (P : Pattern) (seq : Bytes) (circular : Bool) (begin length : Int) (hmax : P.maxerr < 10000) :
+    ∀ m ∈ findAllIndex P seq circular begin length, ∃ b ∈ filterBestMatch P seq circular begin length, b.2.2 ≤ m.2.2 :=
+  filterBest_cover _ (findAllIndex_sorted P seq circular begin length) (raw_hits_ok P seq circular begin length hmax)
+
+/-- **the hits kept by `FilterBestMatch` do not overlap**: `a.end + a.err ≤ b.start - b.err` for `a` before `b` -/
+theorem filterBestMatch_chain (P : Pattern) (seq : Bytes) (circular : Bool) (begin length : Int) (hmax : P.maxerr < 10000) :
+    (filterBestMatch P seq circular begin length).Pairwise NoOverlap :=
+  filterBest_chain _ (findAllIndex_sorted P seq circular begin length) (raw_hits_ok P seq circular begin length hmax)
+
+/-- test: the repaired `FilterBestMatch` keeps a first hit lying beyond position 10000 (hand-made raw list) -/
+example : filterBest [(10010, 10014, 0), (10011, 10015, 1), (10030, 10034, 1)] = [(10010, 10014, 0), (10030, 10034, 1)] := by
+  decide
+
+/-- **`AllMatches`** (`allMatches_spec`): every returned triple is within the budget, and is either a hit kept by
+`FilterBestMatch` passed unchanged (no error, or mismatch-only mode: `findAllIndex_exact` applies to it), or — indel mode, at least
+one error — a span `0 ≤ s ≤ e ≤ |seq|` whose reported error count is the edit distance (`editDist samenuc`) between the
+pattern string handed to `LocatePattern` and `seq[s:e]` (`SpanDist`). -/
+theorem allMatches_spec (P : Pattern) (seq : Bytes) (circular : Bool) (begin length : Int) (out : List Hit)
+    (h : allMatches P seq circular begin length = .ok out) :
+    ∀ x ∈ out, x.2.2 ≤ (P.maxerr : Int) ∧
+      ((x ∈ filterBestMatch P seq circular begin length ∧ ¬ (x.2.2 > 0 ∧ P.hasIndel = true)) ∨
+       (P.hasIndel = true ∧ SpanDist P seq x)) :=
+  Apat.allMatches_spec P seq circular begin length out h
+
+/-- **`BestMatch`** (`bestMatch_spec`) on a linear sequence: when a match is reported, the selected raw hit is a hit of minimal
+error level lying inside the sequence, and the result is that hit (no error, or mismatch-only mode) or — indel mode — a span
+inside the sequence whose reported error count is the edit distance between the pattern string and that span. -/
+theorem bestMatch_spec (P : Pattern) (seq : Bytes) (begin length : Int) (s e k : Int) (hmax : P.maxerr < 10000)
+    (h : bestMatch P seq false begin length = .ok (s, e, k, true)) :
+    let res := findAllIndex P seq false begin length
+    res ≠ [] ∧ bestOf res ∈ res ∧ (∀ m ∈ res, (bestOf res).2.2 ≤ m.2.2) ∧
+      0 ≤ (bestOf res).1 ∧ (bestOf res).2.1 ≤ (seq.length : Int) ∧
+      (((s, e, k) = bestOf res ∧ ((bestOf res).2.2 = 0 ∨ P.hasIndel = false)) ∨
+       (P.hasIndel = true ∧ (bestOf res).2.2 ≠ 0 ∧ SpanDist P seq (s, e, k))) :=
+  Apat.bestMatch_spec P seq begin length s e k hmax h
 
 /-! ## `LocatePattern` (repaired) -/
 
